@@ -54,6 +54,7 @@ def enumerate_cases(tier):
                 yield dict(base, op="compose", arg=[], gm=(1, 0))
             if am == (0, 0):
                 yield dict(base, op="refines", arg=None)
+                yield dict(base, op="refines", arg=None, rev=True)     # the same second interface listed in reverse order
         if all(b == "-" for b in r2):
             for s in names + ["zz"]:
                 for t in names + ["q"]:
@@ -80,9 +81,11 @@ def strategy(tier):
     return _poly()
 
 
-def _stub_contract(names, roles, amode, gmode=1):
+def _stub_contract(names, roles, amode, gmode=1, rev=False):
     ins = [n for n, r in zip(names, roles) if r == "i"]
     outs = [n for n, r in zip(names, roles) if r == "o"]
+    if rev:
+        ins, outs = ins[::-1], outs[::-1]
     d = {"i": ins, "o": outs, "a": [[ins, (1 << (2 ** len(ins))) - 1]] if (amode and ins) else [],
          "g": [[ins + outs, (1 << (2 ** len(ins + outs))) - 1]] if (ins + outs and gmode) else []}
     return finite.contract_from(d, True), d
@@ -160,7 +163,7 @@ def _run_enum(case):
     finite.World.reset(names + ["q", "zz"], [], "exact")
     gm = case.get("gm", (1, 1))
     c1, d1 = _stub_contract(names, case["r1"], case["am"][0], gm[0])
-    c2, d2 = _stub_contract(names, case["r2"], case["am"][1], gm[1])
+    c2, d2 = _stub_contract(names, case["r2"], case["am"][1], gm[1], rev=case.get("rev", False))
     if "gm" in case:
         labels.append("constraint-free-operand")
     a1v = set(d1["i"]) if d1["a"] else set()
